@@ -61,6 +61,7 @@ type gRecStore struct {
 	lastPut map[string]*metadatapb.ConsumerGroup // last record written per group (nil = deleted)
 	tees    []metadata.Store
 	errs    int // errors returned by the real store to the coordinator (etcd hiccups make a case inconclusive)
+	park    *gPark // overlap mode: the one store call (of the request in flight) that is held until released
 }
 
 func newGRecStore(inner metadata.Store, tees ...metadata.Store) *gRecStore {
@@ -85,7 +86,11 @@ func (s *gRecStore) noteErr(err error) {
 func (s *gRecStore) errors() int { s.mu.Lock(); defer s.mu.Unlock(); return s.errs }
 
 func (s *gRecStore) Metadata(ctx context.Context, topics []string) (*metadata.ClusterMetadata, error) {
-	return s.inner().Metadata(ctx, topics)
+	p := s.hit("metadata")
+	p.before()
+	m, err := s.inner().Metadata(ctx, topics)
+	p.after()
+	return m, err
 }
 func (s *gRecStore) NextOffset(ctx context.Context, topic string, partition int32) (int64, error) {
 	return s.inner().NextOffset(ctx, topic, partition)
@@ -116,14 +121,20 @@ func (s *gRecStore) DeleteTopic(ctx context.Context, name string) error {
 }
 
 func (s *gRecStore) FetchConsumerGroup(ctx context.Context, groupID string) (*metadatapb.ConsumerGroup, error) {
+	p := s.hit("fetchgroup")
+	p.before()
 	g, err := s.inner().FetchConsumerGroup(ctx, groupID)
 	s.noteErr(err)
+	p.after()
 	return g, err
 }
 
 func (s *gRecStore) FetchConsumerOffset(ctx context.Context, group, topic string, partition int32) (int64, string, error) {
+	p := s.hit("fetchoffset")
+	p.before()
 	o, m, err := s.inner().FetchConsumerOffset(ctx, group, topic, partition)
 	s.noteErr(err)
+	p.after()
 	return o, m, err
 }
 
@@ -133,6 +144,8 @@ func (s *gRecStore) CommitConsumerOffset(ctx context.Context, group, topic strin
 	s.muts = append(s.muts, gMut{Kind: "commit", Group: group, Topic: topic, Partition: partition, Offset: offset})
 	in, tees := s.in, s.tees
 	s.mu.Unlock()
+	p := s.hit("commit")
+	p.before()
 	err := in.CommitConsumerOffset(ctx, group, topic, partition, offset, meta)
 	s.noteErr(err)
 	if err == nil {
@@ -140,6 +153,7 @@ func (s *gRecStore) CommitConsumerOffset(ctx context.Context, group, topic strin
 			_ = t.CommitConsumerOffset(ctx, group, topic, partition, offset, meta)
 		}
 	}
+	p.after()
 	return err
 }
 
@@ -151,6 +165,8 @@ func (s *gRecStore) PutConsumerGroup(ctx context.Context, group *metadatapb.Cons
 	s.lastPut[group.GetGroupId()] = cp
 	in, tees := s.in, s.tees
 	s.mu.Unlock()
+	p := s.hit("put")
+	p.before()
 	err := in.PutConsumerGroup(ctx, group)
 	s.noteErr(err)
 	if err == nil {
@@ -158,6 +174,7 @@ func (s *gRecStore) PutConsumerGroup(ctx context.Context, group *metadatapb.Cons
 			_ = t.PutConsumerGroup(ctx, proto.Clone(group).(*metadatapb.ConsumerGroup))
 		}
 	}
+	p.after()
 	return err
 }
 
@@ -167,6 +184,8 @@ func (s *gRecStore) DeleteConsumerGroup(ctx context.Context, groupID string) err
 	s.lastPut[groupID] = nil
 	in, tees := s.in, s.tees
 	s.mu.Unlock()
+	p := s.hit("delete")
+	p.before()
 	err := in.DeleteConsumerGroup(ctx, groupID)
 	s.noteErr(err)
 	if err == nil {
@@ -174,12 +193,38 @@ func (s *gRecStore) DeleteConsumerGroup(ctx context.Context, groupID string) err
 			_ = t.DeleteConsumerGroup(ctx, groupID)
 		}
 	}
+	p.after()
 	return err
 }
 
 var _ metadata.Store = (*gRecStore)(nil)
 
 func (s *gRecStore) commitCalls() int { s.mu.Lock(); defer s.mu.Unlock(); return s.commits }
+
+func (s *gRecStore) mutCount() int { s.mu.Lock(); defer s.mu.Unlock(); return len(s.muts) }
+
+// commitCallsSince counts the CommitConsumerOffset calls recorded after position mark, leaving out those
+// that carry one of the offsets in others (unique offsets of other commits in flight) other than own.
+func (s *gRecStore) commitCallsSince(mark int, own int64, others []int64) int {
+	s.mu.Lock()
+	defer s.mu.Unlock()
+	n := 0
+	for _, m := range s.muts[mark:] {
+		if m.Kind != "commit" {
+			continue
+		}
+		foreign := false
+		for _, o := range others {
+			if o != own && o == m.Offset {
+				foreign = true
+			}
+		}
+		if !foreign {
+			n++
+		}
+	}
+	return n
+}
 
 func (s *gRecStore) lastWritten(group string) *metadatapb.ConsumerGroup {
 	s.mu.Lock()
@@ -225,7 +270,7 @@ func (c gConfig) metadata() metadata.ClusterMetadata {
 // list is generated, the concrete request is derived from what the acting
 // member was last told.
 type gOp struct {
-	K     string   `json:"k"`               // join sync hb hbr leave commit fetch advance settle failover
+	K     string   `json:"k"`               // join sync hb hbr leave commit fetch advance settle failover grow joinall ovl
 	Slot  int      `json:"m"`               // acting member slot
 	Sub   []string `json:"sub,omitempty"`   // join: subscription to send (nil = keep previous)
 	Fresh bool     `json:"fresh,omitempty"` // join: send an empty member id although one is known
@@ -238,6 +283,14 @@ type gOp struct {
 	// join: the session timeout this member announces from now on (a reconfigured / restarted client
 	// re-using its member id); 0 = keep announcing what it announced last (initially cfg.SessionMs[slot])
 	SessMs int64 `json:"sess,omitempty"`
+	// Who, when set, overrides Slot at run time: "leader" = the slot holding the member id that the latest
+	// join reply named as leader (falls back to Slot)
+	Who string `json:"who,omitempty"`
+	// K == "ovl" (overlap mode, see overlap_test.go): request A is parked inside the store call selected by
+	// Park, request B runs meanwhile
+	A    *gOp       `json:"a,omitempty"`
+	B    *gOp       `json:"b,omitempty"`
+	Park *gParkSpec `json:"park,omitempty"`
 }
 
 type gIdent struct {
@@ -328,6 +381,57 @@ type gEvent struct {
 
 	Before gTruth `json:"-"`
 	After  gTruth `json:"after"`
+
+	// overlap mode only. Ovl: "A" = this request was parked inside a store call while request(s) "B" ran.
+	// Cands: EVERY boundary snapshot taken between A's invocation and A's return (before A, while A was
+	// parked, after each B step, after A returned): the state a reply of A or B was computed from is one of
+	// these up to the requests' own effects, so an oracle may only object to an overlapped reply that is
+	// wrong with respect to all of them. PrevJoin: for member ids whose "latest join reply" bookkeeping was
+	// changed by the pair, the generation recorded before the pair (-1 = id was unknown).
+	Ovl      string           `json:"ovl,omitempty"`
+	Pair     int              `json:"pair,omitempty"`
+	Park     string           `json:"park,omitempty"`
+	Cands    []gTruth         `json:"cands,omitempty"`
+	PrevJoin map[string]int32 `json:"prev_join,omitempty"`
+}
+
+func (e *gEvent) overlapped() bool { return e.Ovl != "" }
+
+// befores / afters: the boundary snapshots a reply may be judged against.
+func (e *gEvent) befores() []gTruth {
+	if e.overlapped() {
+		return e.Cands
+	}
+	return []gTruth{e.Before}
+}
+
+func (e *gEvent) afters() []gTruth {
+	if e.overlapped() {
+		return e.Cands
+	}
+	return []gTruth{e.After}
+}
+
+// quiet: not overlapped, or generation, member ids and subscriptions were the same in every snapshot
+// taken during the overlap (so that any order of the two requests leads to the same judgement).
+func (e *gEvent) quiet() bool {
+	if !e.overlapped() {
+		return true
+	}
+	sig := func(t gTruth) string {
+		var sb strings.Builder
+		fmt.Fprintf(&sb, "%v/%d/", t.Exists, t.Gen)
+		for _, id := range t.memberIDs() {
+			fmt.Fprintf(&sb, "%s%v;", id, gSortedCopy(t.Members[id].Subs))
+		}
+		return sb.String()
+	}
+	for _, c := range e.Cands[1:] {
+		if sig(c) != sig(e.Cands[0]) {
+			return false
+		}
+	}
+	return true
 }
 
 type gObserver func(w *gWorld, ev *gEvent)
@@ -352,6 +456,19 @@ type gWorld struct {
 	blocked bool
 	name    string
 	peer    *gWorld // the other group on the same coordinator (pair mode)
+
+	// overlap mode
+	lastLeader string           // leader named by the latest join reply
+	hold       bool             // events are collected in held instead of being shown to the observers
+	held       []*gEvent        //
+	inPair     bool             // a request is parked: further requests run under a real-time bound (see call)
+	pairBound  time.Duration    //
+	stuck      bool             // a request started while another one was parked did not return within the bound
+	cut        bool             // the rest of the case is not executed (order of two requests unknown)
+	pairs      int              //
+	pendOffs   []int64          // unique offsets of the commits in flight (attribution of CommitConsumerOffset calls)
+	prevJoin   map[string]int32 // see gEvent.PrevJoin
+	ovl        gOvlStats
 }
 
 // gSeedSalt is set from VERIF_SEED by each test so that member ids differ between seeds.
@@ -426,6 +543,18 @@ func (w *gWorld) call(f func()) bool {
 		defer close(done)
 		f()
 	}()
+	if w.inPair {
+		// another request is parked inside a store call. If the coordinator serialises f behind it, f waits
+		// on a sync.Mutex, which is not durably blocking: synctest.Wait would never return. Wait for f under
+		// a REAL-time bound instead (a scheduling aid only; no oracle depends on it).
+		select {
+		case <-done:
+			return true
+		case <-gRealAfter(w.pairBound):
+			w.stuck = true
+			return false
+		}
+	}
 	synctest.Wait()
 	select {
 	case <-done:
@@ -533,12 +662,20 @@ func (w *gWorld) stateSig(tr gTruth) string {
 }
 
 func (w *gWorld) emit(ev *gEvent) {
-	ev.I = len(w.log)
 	ev.At = w.now()
 	ev.AtMs = int64(ev.At / time.Millisecond)
 	ev.Before = w.prev
 	ev.After = w.truth()
 	w.prev = ev.After
+	if w.hold {
+		w.held = append(w.held, ev)
+		return
+	}
+	w.publish(ev)
+}
+
+func (w *gWorld) publish(ev *gEvent) {
+	ev.I = len(w.log)
 	w.log = append(w.log, ev)
 	for _, o := range w.obs {
 		o(w, ev)
@@ -587,10 +724,19 @@ func maxInt(a, b int) int {
 
 // step executes one abstract op (settle expands into several).
 func (w *gWorld) step(op gOp) {
-	if w.blocked {
+	if w.blocked || w.cut {
 		return
 	}
 	switch op.K {
+	case "ovl":
+		w.overlap(op)
+	case "joinall":
+		// one poll round: every slot that holds a member id sends one JoinGroup
+		for i, s := range w.slots {
+			if s.ID != "" && !w.blocked && !w.cut {
+				w.doJoin(gOp{K: "join", Slot: i})
+			}
+		}
 	case "join":
 		w.doJoin(op)
 	case "sync":
@@ -648,7 +794,63 @@ func (w *gWorld) slotSession(i int) int64 {
 	return w.cfg.SessionMs[i]
 }
 
-func (w *gWorld) doJoin(op gOp) *gEvent {
+// gPending is a prepared request: run performs the coordinator call, fin does the client-side bookkeeping
+// of the reply and returns the event (not yet shown to anybody).
+type gPending struct {
+	run func()
+	fin func() *gEvent
+}
+
+// do runs a prepared request to completion and reports it.
+func (w *gWorld) do(p gPending) *gEvent {
+	if !w.call(p.run) {
+		return nil
+	}
+	ev := p.fin()
+	w.emit(ev)
+	return ev
+}
+
+// slotOf resolves the acting slot of an op.
+func (w *gWorld) slotOf(op gOp) int {
+	if op.Who == "leader" && w.lastLeader != "" {
+		for i, s := range w.slots {
+			if s.ID == w.lastLeader {
+				return i
+			}
+		}
+	}
+	return op.Slot
+}
+
+// prep prepares the request of a single-request op (join sync hb leave commit fetch).
+func (w *gWorld) prep(op gOp) (gPending, bool) {
+	op.Slot = w.slotOf(op)
+	switch op.K {
+	case "join":
+		return w.prepJoin(op), true
+	case "sync":
+		return w.prepSync(op), true
+	case "hb":
+		return w.prepHeartbeat(op), true
+	case "leave":
+		return w.prepLeave(op), true
+	case "commit":
+		return w.prepCommit(op), true
+	case "fetch":
+		return w.prepFetch(op), true
+	}
+	return gPending{}, false
+}
+
+func (w *gWorld) doJoin(op gOp) *gEvent      { op.Slot = w.slotOf(op); return w.do(w.prepJoin(op)) }
+func (w *gWorld) doSync(op gOp) *gEvent      { op.Slot = w.slotOf(op); return w.do(w.prepSync(op)) }
+func (w *gWorld) doHeartbeat(op gOp) *gEvent { op.Slot = w.slotOf(op); return w.do(w.prepHeartbeat(op)) }
+func (w *gWorld) doLeave(op gOp) *gEvent     { op.Slot = w.slotOf(op); return w.do(w.prepLeave(op)) }
+func (w *gWorld) doCommit(op gOp) *gEvent    { op.Slot = w.slotOf(op); return w.do(w.prepCommit(op)) }
+func (w *gWorld) doFetch(op gOp) *gEvent     { op.Slot = w.slotOf(op); return w.do(w.prepFetch(op)) }
+
+func (w *gWorld) prepJoin(op gOp) gPending {
 	s := w.slots[op.Slot]
 	if op.SessMs > 0 {
 		s.SessMs = op.SessMs
@@ -678,112 +880,122 @@ func (w *gWorld) doJoin(op gOp) *gEvent {
 	ev := &gEvent{K: "join", Slot: op.Slot, ReqID: id, ReqSub: gSortedCopy(sub), SessMs: sess}
 	var resp *kmsg.JoinGroupResponse
 	var err error
-	if !w.call(func() { resp, err = w.coord.JoinGroup(context.Background(), req) }) {
-		return nil
-	}
-	if err != nil || resp == nil {
-		ev.Err = fmt.Sprint(err)
-		ev.Code = -1
-		w.emit(ev)
+	run := func() { resp, err = w.coord.JoinGroup(context.Background(), req) }
+	fin := func() *gEvent {
+		if err != nil || resp == nil {
+			ev.Err = fmt.Sprint(err)
+			ev.Code = -1
+			return ev
+		}
+		ev.Code, ev.Gen, ev.MemberID, ev.Leader = resp.ErrorCode, resp.Generation, resp.MemberID, resp.LeaderID
+		if len(resp.Members) > 0 {
+			ev.HasList = true
+			ev.Members = map[string][]string{}
+			for _, m := range resp.Members {
+				topics, derr := gDecodeSubscription(m.ProtocolMetadata)
+				if derr != nil {
+					topics = []string{"<undecodable:" + derr.Error() + ">"}
+				}
+				ev.Members[m.MemberID] = gSortedCopy(topics)
+			}
+		}
+		if resp.LeaderID != "" {
+			w.lastLeader = resp.LeaderID
+		}
+		// client-side bookkeeping: what this member was told
+		if resp.MemberID != "" {
+			s.ID, s.Gen, s.Sub, s.JoinCode, s.Left = resp.MemberID, resp.Generation, append([]string(nil), sub...), resp.ErrorCode, false
+			s.Hist = append(s.Hist, gIdent{resp.MemberID, resp.Generation})
+			info := w.ids[resp.MemberID]
+			if w.prevJoin != nil {
+				if _, noted := w.prevJoin[resp.MemberID]; !noted {
+					if info == nil {
+						w.prevJoin[resp.MemberID] = -1
+					} else {
+						w.prevJoin[resp.MemberID] = info.LastJoinGen
+					}
+				}
+			}
+			if info == nil {
+				info = &gIDInfo{Slot: op.Slot}
+				w.ids[resp.MemberID] = info
+			}
+			info.LastJoinGen = resp.Generation
+			info.Sub = gSortedCopy(sub)
+			info.SessionMs = sess
+			info.LastJoinAt = w.now()
+		}
 		return ev
 	}
-	ev.Code, ev.Gen, ev.MemberID, ev.Leader = resp.ErrorCode, resp.Generation, resp.MemberID, resp.LeaderID
-	if len(resp.Members) > 0 {
-		ev.HasList = true
-		ev.Members = map[string][]string{}
-		for _, m := range resp.Members {
-			topics, derr := gDecodeSubscription(m.ProtocolMetadata)
-			if derr != nil {
-				topics = []string{"<undecodable:" + derr.Error() + ">"}
-			}
-			ev.Members[m.MemberID] = gSortedCopy(topics)
-		}
-	}
-	// client-side bookkeeping: what this member was told
-	if resp.MemberID != "" {
-		s.ID, s.Gen, s.Sub, s.JoinCode, s.Left = resp.MemberID, resp.Generation, append([]string(nil), sub...), resp.ErrorCode, false
-		s.Hist = append(s.Hist, gIdent{resp.MemberID, resp.Generation})
-		info := w.ids[resp.MemberID]
-		if info == nil {
-			info = &gIDInfo{Slot: op.Slot}
-			w.ids[resp.MemberID] = info
-		}
-		info.LastJoinGen = resp.Generation
-		info.Sub = gSortedCopy(sub)
-		info.SessionMs = sess
-		info.LastJoinAt = w.now()
-	}
-	w.emit(ev)
-	return ev
+	return gPending{run, fin}
 }
 
-func (w *gWorld) doSync(op gOp) *gEvent {
+func (w *gWorld) prepSync(op gOp) gPending {
 	id, gen := w.identity(op)
 	req := kmsg.NewPtrSyncGroupRequest()
 	req.Group, req.MemberID, req.Generation = w.cfg.Group, id, gen
 	ev := &gEvent{K: "sync", Slot: op.Slot, ReqID: id, ReqGen: gen, Ident: op.Ident}
 	var resp *kmsg.SyncGroupResponse
 	var err error
-	if !w.call(func() { resp, err = w.coord.SyncGroup(context.Background(), req) }) {
-		return nil
-	}
-	if err != nil || resp == nil {
-		ev.Err, ev.Code = fmt.Sprint(err), -1
-		w.emit(ev)
+	run := func() { resp, err = w.coord.SyncGroup(context.Background(), req) }
+	fin := func() *gEvent {
+		if err != nil || resp == nil {
+			ev.Err, ev.Code = fmt.Sprint(err), -1
+			return ev
+		}
+		ev.Code = resp.ErrorCode
+		if resp.ErrorCode == 0 {
+			ev.AssignRaw = append([]byte(nil), resp.MemberAssignment...)
+			a, derr := gDecodeAssignment(resp.MemberAssignment)
+			if derr != nil {
+				ev.AssignErr = derr.Error()
+			}
+			ev.Assign = a
+			if resp.Protocol != nil {
+				ev.Protocol = *resp.Protocol
+			}
+			if resp.ProtocolType != nil {
+				ev.ProtoType = *resp.ProtocolType
+			}
+		}
 		return ev
 	}
-	ev.Code = resp.ErrorCode
-	if resp.ErrorCode == 0 {
-		ev.AssignRaw = append([]byte(nil), resp.MemberAssignment...)
-		a, derr := gDecodeAssignment(resp.MemberAssignment)
-		if derr != nil {
-			ev.AssignErr = derr.Error()
-		}
-		ev.Assign = a
-		if resp.Protocol != nil {
-			ev.Protocol = *resp.Protocol
-		}
-		if resp.ProtocolType != nil {
-			ev.ProtoType = *resp.ProtocolType
-		}
-	}
-	w.emit(ev)
-	return ev
+	return gPending{run, fin}
 }
 
-func (w *gWorld) doHeartbeat(op gOp) *gEvent {
+func (w *gWorld) prepHeartbeat(op gOp) gPending {
 	id, gen := w.identity(op)
 	req := kmsg.NewPtrHeartbeatRequest()
 	req.Group, req.MemberID, req.Generation = w.cfg.Group, id, gen
 	ev := &gEvent{K: "hb", Slot: op.Slot, ReqID: id, ReqGen: gen, Ident: op.Ident}
 	var resp *kmsg.HeartbeatResponse
-	if !w.call(func() { resp = w.coord.Heartbeat(context.Background(), req) }) {
-		return nil
+	run := func() { resp = w.coord.Heartbeat(context.Background(), req) }
+	fin := func() *gEvent {
+		ev.Code = resp.ErrorCode
+		return ev
 	}
-	ev.Code = resp.ErrorCode
-	w.emit(ev)
-	return ev
+	return gPending{run, fin}
 }
 
-func (w *gWorld) doLeave(op gOp) *gEvent {
+func (w *gWorld) prepLeave(op gOp) gPending {
 	s := w.slots[op.Slot]
 	req := kmsg.NewPtrLeaveGroupRequest()
 	req.Group, req.MemberID = w.cfg.Group, s.ID
 	ev := &gEvent{K: "leave", Slot: op.Slot, ReqID: s.ID}
 	var resp *kmsg.LeaveGroupResponse
-	if !w.call(func() { resp = w.coord.LeaveGroup(context.Background(), req) }) {
-		return nil
+	run := func() { resp = w.coord.LeaveGroup(context.Background(), req) }
+	fin := func() *gEvent {
+		ev.Code = resp.ErrorCode
+		if resp.ErrorCode == 0 {
+			s.Left = true
+			s.ID = "" // a member that left has no identity any more; its old pairs stay in Hist
+		}
+		return ev
 	}
-	ev.Code = resp.ErrorCode
-	if resp.ErrorCode == 0 {
-		s.Left = true
-		s.ID = "" // a member that left has no identity any more; its old pairs stay in Hist
-	}
-	w.emit(ev)
-	return ev
+	return gPending{run, fin}
 }
 
-func (w *gWorld) doCommit(op gOp) *gEvent {
+func (w *gWorld) prepCommit(op gOp) gPending {
 	id, gen := w.identity(op)
 	w.offSeq++
 	off := w.offBase + w.offSeq // unique per commit
@@ -798,23 +1010,28 @@ func (w *gWorld) doCommit(op gOp) *gEvent {
 	rt.Partitions = append(rt.Partitions, rp)
 	req.Topics = append(req.Topics, rt)
 	ev := &gEvent{K: "commit", Slot: op.Slot, ReqID: id, ReqGen: gen, Ident: op.Ident, Topic: op.Topic, Part: op.Part, Offset: off}
-	before := w.rec.commitCalls()
+	mark := w.rec.mutCount()
+	if w.pendOffs != nil {
+		w.pendOffs = append(w.pendOffs, off)
+	}
 	var resp *kmsg.OffsetCommitResponse
 	var err error
-	if !w.call(func() { resp, err = w.coord.OffsetCommit(context.Background(), req) }) {
-		return nil
+	run := func() { resp, err = w.coord.OffsetCommit(context.Background(), req) }
+	fin := func() *gEvent {
+		// CommitConsumerOffset calls made since the request was prepared, except those that carry the unique
+		// offset of ANOTHER commit in flight (only in overlap mode are there any)
+		ev.CommitCalls = w.rec.commitCallsSince(mark, off, w.pendOffs)
+		if err != nil || resp == nil || len(resp.Topics) != 1 || len(resp.Topics[0].Partitions) != 1 {
+			ev.Err, ev.Code = fmt.Sprintf("err=%v malformed reply", err), -1
+		} else {
+			ev.Code = resp.Topics[0].Partitions[0].ErrorCode
+		}
+		return ev
 	}
-	ev.CommitCalls = w.rec.commitCalls() - before
-	if err != nil || resp == nil || len(resp.Topics) != 1 || len(resp.Topics[0].Partitions) != 1 {
-		ev.Err, ev.Code = fmt.Sprintf("err=%v malformed reply", err), -1
-	} else {
-		ev.Code = resp.Topics[0].Partitions[0].ErrorCode
-	}
-	w.emit(ev)
-	return ev
+	return gPending{run, fin}
 }
 
-func (w *gWorld) doFetch(op gOp) *gEvent {
+func (w *gWorld) prepFetch(op gOp) gPending {
 	req := kmsg.NewPtrOffsetFetchRequest()
 	req.Group = w.cfg.Group
 	rt := kmsg.NewOffsetFetchRequestTopic()
@@ -824,17 +1041,17 @@ func (w *gWorld) doFetch(op gOp) *gEvent {
 	ev := &gEvent{K: "fetch", Slot: op.Slot, Topic: op.Topic, Part: op.Part}
 	var resp *kmsg.OffsetFetchResponse
 	var err error
-	if !w.call(func() { resp, err = w.coord.OffsetFetch(context.Background(), req) }) {
-		return nil
+	run := func() { resp, err = w.coord.OffsetFetch(context.Background(), req) }
+	fin := func() *gEvent {
+		if err != nil || resp == nil || len(resp.Topics) != 1 || len(resp.Topics[0].Partitions) != 1 {
+			ev.Err, ev.Code = fmt.Sprintf("err=%v malformed reply", err), -1
+		} else {
+			ev.Code = resp.Topics[0].Partitions[0].ErrorCode
+			ev.Offset = resp.Topics[0].Partitions[0].Offset
+		}
+		return ev
 	}
-	if err != nil || resp == nil || len(resp.Topics) != 1 || len(resp.Topics[0].Partitions) != 1 {
-		ev.Err, ev.Code = fmt.Sprintf("err=%v malformed reply", err), -1
-	} else {
-		ev.Code = resp.Topics[0].Partitions[0].ErrorCode
-		ev.Offset = resp.Topics[0].Partitions[0].Offset
-	}
-	w.emit(ev)
-	return ev
+	return gPending{run, fin}
 }
 
 // storedOffset reads the committed offset straight from the store.
@@ -1245,6 +1462,9 @@ func gOpsSig(w *gWorld) string {
 		}
 		if e.K == "join" && e.SessMs != w.cfg.SessionMs[e.Slot] {
 			fmt.Fprintf(&sb, "s%d/", e.SessMs)
+		}
+		if e.Ovl != "" {
+			fmt.Fprintf(&sb, "~%s", e.Ovl)
 		}
 		fmt.Fprintf(&sb, "%s%d:%d;", e.K, e.Slot, e.Code)
 	}
